@@ -31,6 +31,7 @@ def run(chk):
     r8(chk, prog, m, "C12.R8")
     r9(chk, prog, m)
     r10_null_target(chk, prog, m)
+    r11_array_range(chk, prog, m)
     chk.undecided_clauses += [
         "agreement with an RFC 6901 evaluator on generated trees and pointers (needs execution)",
         "json_pointer_getf/setf formatting (vasprintf on data)",
@@ -1014,3 +1015,90 @@ def r10_null_target(chk, prog, m):
         else:
             chk.proven(rid, f.name, sig, f.entry.term.locstr(), "success with the null value")
     chk.floor(rid, n, 2, "lookup entry points")
+
+
+# ---------------------------------------------------------------------------
+# R11 an array index resolves exactly when it is below the length
+class _ArrayTokPE(_EntryPE):
+    def call_model(self, state, frame, i, args):
+        nm = i.callee
+        if nm in ("json_object_is_type", "json_object_get_type") and args and args[0] == ("ptr", "root", ()):
+            if nm == "json_object_get_type":
+                return pe.C(5)
+            return pe.C(int(args[1][1] == 5)) if pe.is_const(args[1]) else None
+        if nm == "json_object_array_length":
+            return pe.C(self.n)
+        if nm == "json_object_array_get_idx":
+            if not pe.is_const(args[1]):
+                self.opaque.append(nm)
+                return None
+            k = args[1][1] % (1 << 64)
+            self.lookups.append((nm, k))
+            return ("ptr", "elem%d" % k, ()) if k < self.n else pe.C(0)
+        if nm in ("strtoull", "strtoul", "strtoll", "strtol") and args and args[0][0] == "ptr":
+            t = self._cstr(state, args[0])
+            if t is None:
+                return None
+            j = 0
+            while j < len(t) and 48 <= t[j] <= 57:
+                j += 1
+            if len(args) > 1 and args[1][0] == "ptr":
+                self.store(state, args[1], self._at(args[0], j))
+            return pe.C(int(t[:j]) if j else 0)
+        return super().call_model(state, frame, i, args)
+
+
+def r11_array_range(chk, prog, m):
+    rid = "C12.R11"
+    chk.rule(rid, "an array index resolves exactly when it is below the array's length: every function of the module that fetches an "
+                  "array element for a reference token, evaluated on arrays of 0, 1 and 2 elements with the tokens \"0\", \"1\", \"2\", "
+                  "succeeds for index < length and fails otherwise (in particular for every index into an empty array)")
+    n = 0
+    for f in [g for g in m.functions.values() if not g.is_decl]:
+        if not any(i.op == "call" and i.callee == "json_object_array_get_idx" for i in f.instrs()):
+            continue
+        if not any(t == "i8*" for t, _ in f.params) or not any(t == "%struct.json_object*" for t, _ in f.params):
+            continue
+        chk.touched(f)
+        bad = und = None
+        for length in (0, 1, 2):
+            for tok in (b"0", b"1", b"2"):
+                args = []
+                used = False
+                for t, nm in f.params:
+                    if t == "i8*" and not used:
+                        args.append(("ptr", "text", ()))
+                        used = True
+                    elif t == "%struct.json_object*":
+                        args.append(("ptr", "root", ()))
+                    elif t.endswith("*"):
+                        args.append(("ptr", "out_" + (nm or "x"), ()))
+                    else:
+                        args.append(pe.TOP)
+                h = _ArrayTokPE(prog, f, tok)
+                h.n = length
+                try:
+                    leaves = h.run(f, args, pe.State())
+                except Exception as e:
+                    und = und or str(e)
+                    continue
+                n += 1
+                rets = [lf for lf in leaves if lf.kind == "ret"]
+                if not rets or len(rets) != len(leaves) or any(lf.value is None or not pe.is_const(lf.value) for lf in rets):
+                    und = und or "token %r, length %d: the evaluation does not end in concrete returns%s" % (
+                        tok.decode(), length, (" (calls outside the model: %s)" % ", ".join(sorted(set(h.opaque)))) if h.opaque else "")
+                    continue
+                idx = int(tok)
+                ok = all((lf.value[1] == 0) == (idx < length) for lf in rets)
+                if not ok and bad is None:
+                    bad = "%s resolves the token \"%s\" in an array of %d element(s) with result %s; RFC 6901 evaluation %s" % (
+                        f.name, tok.decode(), length, sorted({lf.value[1] for lf in rets}),
+                        "succeeds" if idx < length else "fails (no such element)")
+        sig = "array index range in " + f.name
+        if bad:
+            chk.refuted(rid, f.name, sig, f.entry.term.locstr(), bad)
+        elif und:
+            chk.undecided(rid, f.name, sig, f.entry.term.locstr(), und)
+        else:
+            chk.proven(rid, f.name, sig, f.entry.term.locstr(), "index < length on 9 (length, token) pairs")
+    chk.floor(rid, n, 5, "(length, token) evaluations")
